@@ -329,14 +329,14 @@ package participle
 //@   modifies ctx.PeekingLexer, ctx.apply, ctx.deepestError, ctx.deepestErrorDepth, ctx.depth
 //@   assume call node.Parse#1: arg0 != nil && wf(arg0)
 //@   assume call fmt.Errorf#1: false
-//@   ensures errOK(result) && errOK(ctx.deepestError) && pcInv(ctx)
+//@   ensures errOK(result) && errOK(ctx.deepestError) && pcInv(ctx) && ctx.tokens == old(ctx.tokens) && ctx.elide == old(ctx.elide)
 //@   ensures result == nil ==> ctx.rawCursor >= old(ctx.rawCursor)
 
 // parseOne: the whole input must be consumed unless trailing input is allowed; the error is the deepest one.
 //@ func (*Parser[G]).parseOne [C06 C01 C15]
 //@   requires ctx != nil && pcInv(ctx) && errOK(ctx.deepestError)
 //@   modifies ctx.PeekingLexer, ctx.apply, ctx.deepestError, ctx.deepestErrorDepth, ctx.depth
-//@   ensures errOK(result) && pcInv(ctx)
+//@   ensures errOK(result) && pcInv(ctx) && ctx.tokens == old(ctx.tokens) && ctx.elide == old(ctx.elide)
 //@   ensures result == nil ==> ctx.allowTrailing || eofAt(&ctx.PeekingLexer, ctx.nextCursor) [C01]
 
 // Build rejects Elide() names the lexer does not define, so the panic below cannot be reached for a built
@@ -376,3 +376,42 @@ package participle
 //@   before call (reflect.Value).SetInt#1: assert x == n
 //@   before call (reflect.Value).SetUint#1: assert x == n
 //@   before call (reflect.Value).SetFloat#1: assert x == n
+
+// The two parse options (Trace, AllowTrailing) only set ctx.trace / ctx.allowTrailing; the type is not
+// constructible outside the package because parseContext is unexported.
+//@ interface ParseOption.call
+//@   params fn, p
+//@   requires p != nil
+//@   modifies p.trace, p.allowTrailing
+
+// User code behind Parseable may only use the PeekingLexer's public operations, each of which is proved
+// to preserve its invariant and to leave the token stream alone (assumed, not checked, for user code).
+//@ interface Parseable.Parse
+//@   params self, lex
+//@   requires lex != nil && plInv(lex)
+//@   modifies lex.Checkpoint
+//@   ensures plInv(lex) && lex.rawCursor >= old(lex.rawCursor) && lex.cursor >= old(lex.cursor)
+//@   ensures result != nil ==> result == NextMatch || uf("user_error", "Bool", result)
+
+// parseNodeFor looks up the node for the target's type by reflection. Assumed (established by Build, by
+// inspection): for the grammar type the parser was built for, the node exists and is well-formed.
+//@ func (*Parser[G]).parseNodeFor
+//@   trusted
+//@   pure
+//@   ensures result1 == nil && result0 != nil && wf(result0)
+
+// ParseFromLexer: whatever path is taken, the caller's lexer ends up at the position the parse reached
+// (the first token it did not consume), and a parse error still comes with a non-nil AST.
+//@ func (*Parser[G]).ParseFromLexer [C15 C06 C01]
+//@   requires lex != nil && plInv(lex)
+//@   modifies *lex
+//@   ensures plInv(lex) && lex.tokens == old(lex.tokens) && lex.elide == old(lex.elide)
+//@   ensures errOK(result1) [C06]
+//@   requires @assumed forall(k, 0, len(options), options[k] != nil)
+//@   at return 2: assert *lex == ctx.PeekingLexer [C15]
+//@   at return 3: assert *lex == ctx.PeekingLexer [C15]
+//@   loop 1 invariant -1 <= rangeindex && rangeindex < len(options)
+//@   loop 1 invariant ctx.PeekingLexer == old(*lex) && ctx.apply == nil && ctx.deepestError == nil && ctx.lookahead == p.useLookahead && ctx.caseInsensitive == p.caseInsensitiveTokens
+//@   loop 1 invariant *lex == old(*lex)
+//@   loop 1 decreases len(options) - rangeindex
+//@   before call (*participle.Parser[G]).parseOne#1: assert ctx.PeekingLexer == old(*lex) && ctx.lookahead == p.useLookahead && ctx.caseInsensitive == p.caseInsensitiveTokens && ctx.apply == nil [C15 C13]
